@@ -261,12 +261,24 @@ func (w *world) cycleOp() {
 		}
 		fault := int64(1)
 		if r.Chance(1, 2) {
-			fault = vh.Pick(r, []int64{0, 2, 2, 3})
+			fault = vh.Pick(r, []int64{0, 0, 2, 2, 3, 4, 4})
 		}
 		ok := fault == 1
 		w.emit(opT{Code: 11, A: []int64{job, id, node}, OK: ok, F: fault})
 		if !ok {
 			w.failed(id)
+			// a status write that went through changes the pod on the API server: later
+			// notifications carry the condition, and an identical failure finds nothing to write
+			if p, has := w.pods[id]; has && p.Job == job && !w.gone[id] && (fault == 0 || fault == 2) {
+				if fault == 0 {
+					p.Cond = node
+				} else {
+					p.Cond = 9
+				}
+				if r.Chance(1, 2) {
+					w.podEvent(p)
+				}
+			}
 		}
 		// a successful API bind sets spec.nodeName; the notification comes later
 		if p, has := w.pods[id]; has && ok && p.Job == job && p.Node == 0 && !w.gone[id] {
@@ -376,7 +388,7 @@ func describe(ops []opT) any {
 			out = append(out, "drain-resync")
 		case 11:
 			out = append(out, fmt.Sprintf("bind j%d t%d n%d outcome=%s", o.A[0], o.A[1], o.A[2],
-				[]string{"bind-fails", "bound", "prebind-fails", "prebind-and-status-update-fail"}[o.F]))
+				[]string{"bind-fails", "bound", "prebind-fails", "prebind-and-status-write-fail", "bind-and-status-write-fail"}[o.F]))
 		case 12:
 			out = append(out, fmt.Sprintf("evict j%d t%d ok=%v", o.A[0], o.A[1], o.OK))
 		case 13:
@@ -434,6 +446,15 @@ func gen(rng *vh.Rng, n int, emit func(id string, sel int, in []int64, kind stri
 		{Code: 10}, {Code: 9},
 	}
 	emit("prebind-fails", 1, encCase(pb), "fixed", true, describe(pb))
+	// both faults at once: the bind request fails AND the status write after it fails
+	bs := append([]opT{}, pb...)
+	bs[3] = opT{Code: 11, A: []int64{2, 1, 1}, F: 4}
+	emit("bind-and-status-write-fail", 1, encCase(bs), "fixed", true, describe(bs))
+	// the identical failure twice: the second status write is a no-op (the pod already carries the condition)
+	nn := []opT{pb[0], pb[1], pb[2], {Code: 11, A: []int64{2, 1, 1}, F: 0},
+		{Code: 1, Pod: cachectl.PodSpec{ID: 1, Job: 2, Phase: 1, Role: 1, CPU: 1000, Mem: 1 << 20, Cond: 1}},
+		{Code: 10}, {Code: 11, A: []int64{2, 1, 1}, F: 0}, {Code: 10}, {Code: 9}}
+	emit("bind-fails-twice-status-write-noop", 1, encCase(nn), "fixed", true, describe(nn))
 	// a failed bind whose pod is gone from the API server when the resync runs
 	gonePod := []opT{
 		{Code: 3, Node: cachectl.NodeX{NodeSpec: sched.NodeSpec{ID: 1, Has: true, CPU: 4000, Mem: 1 << 30, Pods: 10}}},
